@@ -82,6 +82,14 @@ type Mutation {
 
 type Subscription {
   tick: Int
+  tickA: A
+}
+
+scalar Fragile
+
+extend type Query {
+  frag(v: Fragile): String
+  fragList(vs: [Fragile!]): String
 }
 `
 
@@ -99,7 +107,8 @@ func yaml(layout string, workerLimit int, extra string) string {
 	exec += fmt.Sprintf("  worker_limit: %d\n", workerLimit)
 	return "schema:\n  - schema.graphqls\n" + exec +
 		"model:\n  filename: graph/models_gen.go\n  package: graph\n" +
-		"resolver:\n  layout: follow-schema\n  dir: graph\n  package: graph\n  filename_template: \"{name}.resolvers.go\"\n" + extra
+		"resolver:\n  layout: follow-schema\n  dir: graph\n  package: graph\n  filename_template: \"{name}.resolvers.go\"\n" +
+		"models:\n  Fragile:\n    model: probe/graph.Fragile\n" + extra
 }
 
 var QuickConfigs = []Config{
@@ -317,6 +326,7 @@ type FieldPlan struct {
 	Tag   string `json:"tag,omitempty"`
 	Emit  int    `json:"emit,omitempty"`
 	Delay int    `json:"delay,omitempty"`
+	Nth   int    `json:"nth,omitempty"`
 }
 
 type Oracle struct {
@@ -441,6 +451,7 @@ type Case struct {
 	CheckLeaks    bool           `json:"check_leaks,omitempty"`
 	SchemaSDL     string         `json:"schema_sdl,omitempty"`
 	Introspection bool           `json:"introspection,omitempty"`
+	Deadline      bool           `json:"deadline,omitempty"`
 }
 
 type Result struct {
@@ -687,7 +698,41 @@ var (
 	Races   []string
 )
 
+// FragileGo: the Go model of the probe schema's Fragile scalar - user code whose unmarshaler can fail or panic.
+const FragileGo = `package graph
+
+import (
+	"errors"
+	"fmt"
+	"io"
+	"strconv"
+)
+
+type Fragile string
+
+func (f *Fragile) UnmarshalGQL(v any) error {
+	s, _ := v.(string)
+	switch s {
+	case "boom":
+		panic("boom:scalar")
+	case "bad":
+		return errors.New("E:scalar")
+	}
+	*f = Fragile(fmt.Sprint(v))
+	return nil
+}
+
+func (f Fragile) MarshalGQL(w io.Writer) { io.WriteString(w, strconv.Quote(string(f))) }
+`
+
 func BuildProbesRace(schema string, cfgs []Config, extra map[string]string, race bool) ([]Probe, error) {
+	if strings.Contains(schema, "scalar Fragile") {
+		e := map[string]string{"graph/fragile.go": FragileGo}
+		for k, v := range extra {
+			e[k] = v
+		}
+		extra = e
+	}
 	out := make([]Probe, len(cfgs))
 	errs := make([]error, len(cfgs))
 	var wg sync.WaitGroup
